@@ -161,33 +161,46 @@ func ztpCorpus(rng *rand.Rand) (v4 [][]byte, v6 [][]byte) {
 			dhcpv4.WithOption(dhcpv4.OptVIVC(dhcpv4.VIVCIdentifier{EntID: 9, Data: []byte(s)}, dhcpv4.VIVCIdentifier{EntID: 30065, Data: []byte(s)})),
 			dhcpv4.WithOption(dhcpv4.OptRelayAgentInfo(dhcpv4.OptGeneric(dhcpv4.AgentCircuitIDSubOption, []byte(s)), dhcpv4.OptGeneric(dhcpv4.AgentRemoteIDSubOption, []byte(s)))))
 		v4 = append(v4, p.ToBytes())
+		// every enterprise number x option shape x placement (plain message, message inside a relay, the vendor
+		// options on the relay itself): enumerated, not sampled
 		for _, ent := range []uint32{0, 9, 30065, 33049, 1271, 42623} {
-			m := &dhcpv6.Message{MessageType: dhcpv6.MessageTypeSolicit}
-			switch rng.Intn(3) {
-			case 0:
-				m.AddOption(&dhcpv6.OptVendorClass{EnterpriseNumber: ent, Data: [][]byte{[]byte(s)}})
-			case 1:
-				m.AddOption(&dhcpv6.OptVendorOpts{EnterpriseNumber: ent, VendorOpts: dhcpv6.Options{
-					&dhcpv6.OptionGeneric{OptionCode: 1, OptionData: []byte(s)}, &dhcpv6.OptionGeneric{OptionCode: 5, OptionData: []byte(s)},
-					&dhcpv6.OptionGeneric{OptionCode: 6, OptionData: []byte(s)}}})
-			default:
-				m.AddOption(&dhcpv6.OptVendorClass{EnterpriseNumber: ent, Data: [][]byte{[]byte(s)}})
-				m.AddOption(&dhcpv6.OptVendorOpts{EnterpriseNumber: ent})
-			}
-			if rng.Intn(2) == 0 {
-				m.AddOption(dhcpv6.OptClientID(rduid(rng)))
-			}
-			var d dhcpv6.DHCPv6 = m
-			if rng.Intn(2) == 0 { // the same options on a relay message, and the message inside a relay
-				r, _ := dhcpv6.EncapsulateRelay(m, dhcpv6.MessageTypeRelayForward, rip6(rng), rip6(rng))
-				r.AddOption(&dhcpv6.OptRemoteID{EnterpriseNumber: ent, RemoteID: []byte(s)})
-				r.AddOption(dhcpv6.OptInterfaceID([]byte(s)))
-				if rng.Intn(2) == 0 {
-					r.AddOption(&dhcpv6.OptVendorClass{EnterpriseNumber: ent, Data: [][]byte{[]byte(s)}})
+			for shape := 0; shape < 3; shape++ {
+				for wrap := 0; wrap < 3; wrap++ {
+					m := &dhcpv6.Message{MessageType: dhcpv6.MessageTypeSolicit}
+					vc := &dhcpv6.OptVendorClass{EnterpriseNumber: ent, Data: [][]byte{[]byte(s)}}
+					vo := &dhcpv6.OptVendorOpts{EnterpriseNumber: ent, VendorOpts: dhcpv6.Options{
+						&dhcpv6.OptionGeneric{OptionCode: 1, OptionData: []byte(s)}, &dhcpv6.OptionGeneric{OptionCode: 5, OptionData: []byte(s)},
+						&dhcpv6.OptionGeneric{OptionCode: 6, OptionData: []byte(s)}}}
+					add := func(x interface{ AddOption(dhcpv6.Option) }) {
+						switch shape {
+						case 0:
+							x.AddOption(vc)
+						case 1:
+							x.AddOption(vo)
+						default:
+							x.AddOption(vc)
+							x.AddOption(&dhcpv6.OptVendorOpts{EnterpriseNumber: ent})
+						}
+					}
+					if wrap != 2 {
+						add(m)
+					}
+					if (int(ent)+shape+wrap)%2 == 0 {
+						m.AddOption(dhcpv6.OptClientID(rduid(rng)))
+					}
+					var d dhcpv6.DHCPv6 = m
+					if wrap > 0 {
+						r, _ := dhcpv6.EncapsulateRelay(m, dhcpv6.MessageTypeRelayForward, rip6(rng), rip6(rng))
+						r.AddOption(&dhcpv6.OptRemoteID{EnterpriseNumber: ent, RemoteID: []byte(s)})
+						r.AddOption(dhcpv6.OptInterfaceID([]byte(s)))
+						if wrap == 2 {
+							add(r)
+						}
+						d = r
+					}
+					v6 = append(v6, d.ToBytes())
 				}
-				d = r
 			}
-			v6 = append(v6, d.ToBytes())
 		}
 	}
 	return
